@@ -24,6 +24,8 @@ pub struct Report {
     /// (workload, case index) currently executing; set by par::run_cases
     pub cur: (String, u64),
     pub max_samples: usize,
+    /// cases in which the harness itself (generator / oracle) panicked outside a guard; recorded by par::run_cases
+    pub harness_panics: Vec<String>,
 }
 
 impl Report {
@@ -65,6 +67,7 @@ impl Report {
     }
     pub fn merge(&mut self, o: Report) {
         self.evaluations += o.evaluations;
+        self.harness_panics.extend(o.harness_panics);
         self.fingerprints.extend(o.fingerprints);
         for (k, v) in o.counters {
             if k.starts_with("max.") { let e = self.counters.entry(k).or_insert(0); if v > *e { *e = v; } }
@@ -200,7 +203,13 @@ pub fn finish(ctx: &Ctx, report: Report, meta: Meta) -> i32 {
         println!("  detail: {d}");
     }
     if total_new > new_violations.len() { println!("  ... and {} more distinct violation signatures (not written out)", total_new - new_violations.len()); }
+    // a case in which the harness' own code panicked says nothing about the property: the violations found by the other
+    // cases stand, without any the run is a harness error
+    if !report.harness_panics.is_empty() {
+        println!("HARNESS-NOTE {} case(s) ended in a panic of the harness' own code (generator / oracle), first: {}", report.harness_panics.len(), report.harness_panics.iter().min().cloned().unwrap_or_default());
+    }
     if !new_violations.is_empty() { return 1; }
+    if !report.harness_panics.is_empty() { println!("HARNESS-ERROR the harness panicked and no violation was observed (this is not a verdict about the property)"); return 3; }
     if ctx.replay.is_some() { println!("REPLAY: no violation reproduced"); return 0; }
     if !unmet.is_empty() || report.fingerprints.len() < 2 {
         for u in unmet { println!("INCONCLUSIVE property={} reason=coverage obligation not met: {}", ctx.prop, u); }
